@@ -1,6 +1,199 @@
-//! C16 harness commands (stub).
-use std::io::Write;
+//! C16: runs the real CSV importer and the real book-keeping on its printed output.
+//!
+//! Case line (fields are `key=<percent-encoded text>`):
+//!   `<id> cfg=<config YAML> src=<CSV text> fund=<ledger text put before the import output, or ~>`
+//! Output line:
+//!   `<id> import=<I> cells=<C> dates=<D> decs=<N> printed=<enc text> proc=<P>`
+//!   I : `(ok <txn> ...)` (each `Txn::to_double_entry` dumped by `tree::txn`) | `(err KIND)` |
+//!       `(dberr KIND)` (to_double_entry failed) | `(cfgerr KIND)` | `(panic MSG)`
+//!   C : `(ok (h1 h2 ..) (c1 c2 ..) ...)` header and records as decoded by the `csv` crate configured like
+//!       `csv::import` (flexible, delimiter, skipped head lines) | `(err)`
+//!   D : `((cell (d y m d)) ...)` every distinct cell that chrono parses with the configured date format
+//!   N : `((cell neg mant scale) ...)` every distinct cell that `syntax::expr::Amount::try_from` accepts
+//!       (what `str_to_comma_decimal` does with a non-empty cell)
+//!   P : result of the real `report::process` over `fund ++ printed` (`proc::run_process`), `-` without fund
+//! The shared pieces are used by `c18.rs` as well.
+use std::collections::{BTreeMap, BTreeSet};
+use std::io::{BufRead, BufReader, Write};
+use std::path::Path;
 
-pub fn run(_args: &[String], _out: &mut dyn Write) -> i32 {
+use okane::import::{self, config, Format};
+use okane_core::syntax;
+
+use crate::sx::{self, enc};
+use crate::{proc, tree};
+
+pub fn fields(line: &str) -> (String, BTreeMap<String, String>) {
+    let mut it = line.split(' ').filter(|w| !w.is_empty());
+    let id = it.next().unwrap_or("").to_string();
+    let mut m = BTreeMap::new();
+    for w in it {
+        if let Some((k, v)) = w.split_once('=') {
+            m.insert(k.to_string(), sx::dec(v).unwrap_or_default());
+        }
+    }
+    (id, m)
+}
+
+/// variant name of an error from its Debug text
+pub fn kind_of(dbg: &str) -> String {
+    dbg.split(['(', ' ', '{']).next().unwrap_or("?").to_string()
+}
+
+pub fn load_config(yaml: &str, path: &str) -> Result<config::ConfigEntry, String> {
+    let set = config::load_from_yaml(yaml.as_bytes()).map_err(|e| kind_of(&format!("{:?}", e)))?;
+    match set.select(Path::new(path)) {
+        Ok(Some(c)) => Ok(c),
+        Ok(None) => Err("NoMatch".to_string()),
+        Err(e) => Err(kind_of(&format!("{:?}", e))),
+    }
+}
+
+pub struct Imported {
+    /// canonical description of the import result
+    pub sexp: String,
+    /// what `ImportCmd::run` prints, when everything succeeded
+    pub printed: Option<String>,
+}
+
+/// `import::import` + `to_double_entry` + printing, exactly as `ImportCmd::run` does after opening the files.
+pub fn run_import(cfg: &config::ConfigEntry, fmt: Format, src: &str) -> Imported {
+    let cfg2 = cfg.clone();
+    let src2 = src.to_string();
+    let r = sx::catch(std::panic::AssertUnwindSafe(move || {
+        let xacts = match import::import(src2.as_bytes(), fmt, &cfg2) {
+            Ok(x) => x,
+            Err(e) => return (format!("(err {})", kind_of(&format!("{:?}", e))), None),
+        };
+        let ctx = syntax::display::DisplayContext {
+            precisions: cfg2.format.commodity.iter().map(|(k, v)| (k.clone(), v.precision)).collect(),
+        };
+        let mut trees = Vec::new();
+        let mut printed = String::new();
+        for xact in &xacts {
+            match xact.to_double_entry(&cfg2.account) {
+                Ok(t) => {
+                    trees.push(tree::txn(&t));
+                    printed.push_str(&format!("{}\n", ctx.as_display(&t)));
+                }
+                Err(e) => return (format!("(dberr {})", kind_of(&format!("{:?}", e))), None),
+            }
+        }
+        (format!("(ok {})", trees.join(" ")), Some(printed))
+    }));
+    match r {
+        Ok((sexp, printed)) => Imported { sexp, printed },
+        Err(msg) => Imported { sexp: format!("(panic {})", enc(&msg)), printed: None },
+    }
+}
+
+/// the real book-keeping over `fund ++ printed`
+pub fn run_books(fund: &str, printed: &str) -> String {
+    let text = format!("{}{}", fund, printed);
+    let files: proc::Files = vec![("/r/main.ledger".to_string(), text)];
+    let loaded = proc::load_entries(&files, "/r/main.ledger");
+    match loaded {
+        Err(kind) => format!("(loaderr {})", kind),
+        Ok(l) => proc::run_process(&files, "/r/main.ledger", Some(&l), None).result,
+    }
+}
+
+/// header and records as the `csv` crate decodes them under the importer's reader configuration
+fn decode_cells(cfg: &config::ConfigEntry, src: &str) -> Option<Vec<Vec<String>>> {
+    let mut br = BufReader::new(src.as_bytes());
+    let mut rb = csv::ReaderBuilder::new();
+    rb.flexible(true);
+    if !cfg.format.delimiter.is_empty() {
+        rb.delimiter(cfg.format.delimiter.as_bytes()[0]);
+    }
+    let mut skipped = String::new();
+    for _ in 0..cfg.format.skip.head.max(0) {
+        skipped.clear();
+        br.read_line(&mut skipped).ok()?;
+    }
+    let mut rdr = rb.from_reader(br);
+    let mut out = Vec::new();
+    out.push(rdr.headers().ok()?.iter().map(|s| s.to_string()).collect());
+    for rec in rdr.records() {
+        out.push(rec.ok()?.iter().map(|s| s.to_string()).collect());
+    }
+    Some(out)
+}
+
+pub fn run(_args: &[String], out: &mut dyn Write) -> i32 {
+    let stdin = std::io::stdin();
+    for line in stdin.lock().lines() {
+        let line = line.unwrap();
+        let (id, f) = fields(&line);
+        let (yaml, src) = match (f.get("cfg"), f.get("src")) {
+            (Some(y), Some(s)) => (y.clone(), s.clone()),
+            _ => {
+                writeln!(out, "{} bad-case", id).unwrap();
+                continue;
+            }
+        };
+        let fund = f.get("fund").cloned().unwrap_or_default();
+        let cfg = match load_config(&yaml, "/data/statement.csv") {
+            Ok(c) => c,
+            Err(k) => {
+                writeln!(out, "{} import=(cfgerr {}) cells=(err) dates=() decs=() printed=~ proc=-", id, k).unwrap();
+                continue;
+            }
+        };
+        let imp = run_import(&cfg, Format::Csv, &src);
+        let cfg3 = cfg.clone();
+        let src3 = src.clone();
+        let cells = sx::catch(std::panic::AssertUnwindSafe(move || decode_cells(&cfg3, &src3))).unwrap_or(None);
+        let mut distinct: BTreeSet<String> = BTreeSet::new();
+        let cells_sx = match &cells {
+            None => "(err)".to_string(),
+            Some(rows) => {
+                let parts: Vec<String> = rows
+                    .iter()
+                    .map(|r| format!("({})", r.iter().map(|c| enc(c)).collect::<Vec<_>>().join(" ")))
+                    .collect();
+                for r in rows.iter().skip(1) {
+                    for c in r {
+                        distinct.insert(c.clone());
+                    }
+                }
+                format!("(ok {})", parts.join(" "))
+            }
+        };
+        let mut dates = Vec::new();
+        let mut decs = Vec::new();
+        for c in &distinct {
+            let fmt = cfg.format.date.clone();
+            let c2 = c.clone();
+            if let Ok(Ok(d)) = sx::catch(move || chrono::NaiveDate::parse_from_str(&c2, &fmt)) {
+                dates.push(format!("({} {})", enc(c), tree::date(d)));
+            }
+            if !c.is_empty() {
+                let c2 = c.clone();
+                let r = sx::catch(move || {
+                    syntax::expr::Amount::try_from(c2.as_str()).ok().map(|a| tree::decimal(&a.value.value))
+                });
+                if let Ok(Some(d)) = r {
+                    decs.push(format!("({} {})", enc(c), d));
+                }
+            }
+        }
+        let proc_res = match (&imp.printed, fund.is_empty()) {
+            (Some(p), false) => run_books(&fund, p),
+            _ => "-".to_string(),
+        };
+        writeln!(
+            out,
+            "{} import={} cells={} dates=({}) decs=({}) printed={} proc={}",
+            id,
+            imp.sexp,
+            cells_sx,
+            dates.join(" "),
+            decs.join(" "),
+            enc(imp.printed.as_deref().unwrap_or("")),
+            proc_res
+        )
+        .unwrap();
+    }
     0
 }
